@@ -55,8 +55,13 @@ RULES = {
     "stops (`break`) at the first kept element, or an index - and never the number of elements satisfying a predicate "
     "(`sum(1 for v in inputs if …)`, `len([… if …])`, a counter incremented in a loop that runs to the end): with an omitted "
     "optional input in the middle the count is smaller than the position and real inputs are cut off",
+    "R13": "names are made unique among the names of the graph that is edited: where a pass asks a uniqueness function (one that loops "
+    "`while <candidate> in <names in use>` over the values of the graph it is given) for a new name, the graph it hands over is the "
+    "graph-like that the same loop iteration edits (`<g>.append(node)`, `<g>.outputs[i] = …`, `<g>.insert_*`) - with the enclosing "
+    "graph or function instead, a value of a subgraph can be renamed to a name the subgraph already uses (a body input named like "
+    "a body initializer: the checker rejects the model and consumers of the constant read the loop-carried input)",
 }
-FLOORS = {"R1": 5, "R2": 6, "R3": 8, "R4": 6, "R5": 8, "R6": 2, "R7": 1, "R8": 10, "R9": 1, "R10": 3, "R11": 1, "R12": 2}
+FLOORS = {"R1": 5, "R2": 6, "R3": 8, "R4": 6, "R5": 8, "R6": 2, "R7": 1, "R8": 10, "R9": 1, "R10": 3, "R11": 1, "R12": 2, "R13": 2}
 EXPLANATION = (
     "Four structural necessary conditions of semantic preservation that the pass mechanisms rely on: guarded removal, "
     "interface-size preservation (call-site scan with receiver typing), data-dependence of the equivalence keys on all "
@@ -838,7 +843,53 @@ def _anc_nodes(node, stop):
         p_ = getattr(p_, "_parent", None)
 
 
+_STRUCTURAL_EDITS = {"append", "extend", "insert_after", "insert_before", "remove", "register_initializer"}
+
+
+def rule_r13(ctx):
+    from .c14 import _has_uniqueness_loop
+
+    n = 0
+    for m in ctx.repo.modules.values():
+        if not m.name.startswith("onnx_ir.passes.common.") or m.name.endswith("_test"):
+            continue
+        for f in m.all_funcs:
+            if isinstance(f.node, ast.Lambda):
+                continue
+            for c in calls_in(f):
+                d = dotted_of(c.func) or ""
+                g = m.functions.get(d)
+                if g is None or not _has_uniqueness_loop(g) or not c.args or not isinstance(c.args[0], ast.Name):
+                    continue
+                # the innermost enclosing loop body (or the function body): the graph-likes edited there
+                blk = getattr(c, "_parent", None)
+                while blk is not None and blk is not f.node and not isinstance(blk, (ast.For, ast.While)):
+                    blk = getattr(blk, "_parent", None)
+                scope = blk if blk is not None else f.node
+                edited = set()
+                for x in ast.walk(scope):
+                    if isinstance(x, ast.Call) and isinstance(x.func, ast.Attribute) and x.func.attr in _STRUCTURAL_EDITS and isinstance(x.func.value, ast.Name):
+                        edited.add(x.func.value.id)
+                    if isinstance(x, ast.Assign):
+                        for t in x.targets:
+                            if isinstance(t, ast.Subscript) and isinstance(t.value, ast.Attribute) and t.value.attr in ("outputs", "inputs", "initializers") \
+                                    and isinstance(t.value.value, ast.Name):
+                                edited.add(t.value.value.id)
+                if not edited:
+                    continue
+                n += 1
+                ok = c.args[0].id in edited
+                ctx.check("R13", f"{f.local}: `{norm(c)[:60]}` looks at the names of the graph that is edited ({'/'.join(sorted(edited))})", ok, f, c,
+                          f"`{norm(c)[:70]}` makes the name unique among the values of `{c.args[0].id}`, while the surrounding iteration edits `{'/'.join(sorted(edited))}`: "
+                          "for a subgraph the new name is compared with the names of another graph and can equal the name of a value the subgraph already has "
+                          "(two values under one name: the checker rejects the model, consumers bind to the wrong value)",
+                          how="first argument of a uniqueness function ∈ receivers of the structural edits of the same loop iteration",
+                          construct=f"names of {c.args[0].id} consulted while {'/'.join(sorted(edited))} is edited")
+    ctx.require(n >= 2, f"only {n} calls of a uniqueness function next to structural edits found in the pass modules")
+
+
 def run(ctx):
+    rule_r13(ctx)
     rule_r12(ctx)
     rule_r11(ctx)
     rule_r10(ctx)
